@@ -586,3 +586,48 @@ def forward_worlds(cfg, transfer, edge_transfer=None, init=frozenset(),
             origin[(m.id, o)] = (n, w)
             work.append((m, o))
     return Worlds(cfg, IN, origin)
+
+
+# ---------------------------------------------------------------------------
+def _stored_names(node):
+    """Names (re)bound by a CFG node."""
+    a = node.ast
+    out = set()
+    if a is None:
+        return out
+    if node.kind == "for":
+        tgt = [a.target]
+    elif node.kind == "with_enter":
+        tgt = [it.optional_vars for it in a.items
+               if it.optional_vars is not None]
+    elif node.kind == "except":
+        return {a.name} if a.name else set()
+    elif node.kind == "stmt":
+        tgt = [a]
+    else:
+        return out
+    for t in tgt:
+        for n in _walk_no_nested(t):
+            if isinstance(n, ast.Name) and isinstance(n.ctx, (ast.Store,
+                                                              ast.Del)):
+                out.add(n.id)
+    return out
+
+
+def reaching_defs(cfg, params=()):
+    """May reaching definitions: {node.id: frozenset((name, def node id))};
+    parameters are defined at the entry node."""
+    init = frozenset((p, cfg.entry.id) for p in params)
+
+    def transfer(node, st):
+        names = _stored_names(node)
+        if not names:
+            return st
+        return frozenset(f for f in st if f[0] not in names) | frozenset(
+            (n, node.id) for n in names)
+    return forward(cfg, transfer, init=init, must=False)
+
+
+def defs_reaching(rd, node, name):
+    """ids of the definition nodes of `name` reaching the entry of node."""
+    return {d for (n, d) in rd.get(node.id, ()) if n == name}
